@@ -78,6 +78,7 @@ def c07(p, nil, ns):
         # common suffix: since a<=b, lub == b structure (up to dict kind/order)
         c = sa.broadcast_to_common_suffix(sb)
         assert c.num_leaves == sb.num_leaves and sa.is_prefix(c) and sb.is_prefix(c) and c.is_prefix(sb), (a, b, c)
-try: c07(); print('OK')
-except BaseException: import traceback; traceback.print_exc(limit=4)
-print(stats)
+if __name__ == "__main__":
+  try: c07(); print("OK")
+  except BaseException: import traceback; traceback.print_exc(limit=4)
+  print(stats)
